@@ -37,6 +37,8 @@ func checkC05(c *Ctx) {
 	ruleSendSites(c, dv, pf, ctorInfo)
 	ruleEstablishInvariants(c, dv, pf)
 	ruleConfigOnlyFromParser(c, pf, "R5.5")
+	// necessary condition for the (otherwise undecided) Control Change value byte: positions within the reported range normalise into [-1,1]
+	ruleNormalisation(c, dv, "R5.6")
 	c.MinCount("R5.1", 3)
 	c.MinCount("R5.2", 20)
 	c.MinCount("R5.3", 20)
